@@ -6,6 +6,7 @@ import FontVerif.Model.FtCalc
 import FontVerif.Model.FtRound
 import FontVerif.Model.HintMath
 import FontVerif.Model.HintRound
+import FontVerif.Model.Scale
 namespace FontVerif.Drv.C03
 open FontVerif
 
@@ -41,6 +42,14 @@ def ftStateAfter (opcode sel : Int) : Option (Int × Int × Int × Int) :=
   else if opcode = 0x76 then let (p, ph, t) := FtRound.setSuperRound 0x4000 sel; some (6, p, ph, t)
   else if opcode = 0x77 then let (p, ph, t) := FtRound.setSuperRound 0x2D41 sel; some (7, p, ph, t)
   else none
+
+def pairs : List Int → Option (List (Int × Int))
+  | [] => some []
+  | [_] => none
+  | x :: y :: rest => (pairs rest).map ((x, y) :: ·)
+
+def renderSimple (r : List (Int × Int) × Int) : String :=
+  joinInts (r.2 :: r.1.flatMap fun q => [q.1, q.2])
 
 def handle (cmd : String) (args : List String) : Option String :=
   match parseInts? args with
@@ -85,6 +94,11 @@ def handle (cmd : String) (args : List String) : Option String :=
         | some (m, p, ph, t) => match HintRound.round m t ph p d with
           | none => "trap"
           | some r => s!"{p} {ph} {t} {r}"
+    -- unhinted simple-glyph scaling: p u xMin lsb adv x0 y0 x1 y1 …  →  advance x0 y0 …
+    | "sk.simple", p :: u :: xMin :: lsb :: adv :: rest =>
+      (pairs rest).map fun pts => renderSimple (Scale.skSimple (Scale.skScale p u) ⟨pts, xMin, lsb, adv⟩)
+    | "ft.simple", p :: u :: xMin :: lsb :: adv :: rest =>
+      (pairs rest).map fun pts => renderSimple (Scale.ftSimple (Scale.ftScale p u) ⟨pts, xMin, lsb, adv⟩)
     | _, _ => none
 
 end FontVerif.Drv.C03
